@@ -62,13 +62,28 @@ package object
 //@ pred kindName(t) := ite(t == BlobObject, "blob", ite(t == TreeObject, "tree", ite(t == CommitObject, "commit", ite(t == TagObject, "tag", "undefined"))))
 //@ pred isKind(t) := t == BlobObject || t == TreeObject || t == CommitObject || t == TagObject
 //@ pred objHeader(t, n) := kindName(t) + " " + fmtd(n, 0) + "\x00"
-//@ pred objBytes(t, d) := objHeader(t, len(d)) + d
+// objBytes is an uninterpreted function with a defining axiom (not a macro) so that the lemma below has a plain trigger
+//@ ghost objBytes(t Type, d string) string
+//@ opaque-axiom [objBytes-def] forall t Type, d string {objBytes(t, d)} :: objBytes(t, d) == objHeader(t, len(d)) + d
 //@ pred objId(t, d) := sha1(objBytes(t, d))
 //@ pred objDir(root, h) := pjoin(pjoin(root, "objects"), bsub(hex(h), 0, 2))
 //@ pred objPath(root, h) := pjoin(objDir(root, h), bsub(hex(h), 2, len(hex(h))))
 //@ pred stored(f, root, h, t, d) := isFile(f, objPath(root, h)) && content(f, objPath(root, h)) == zlibEnc(objBytes(t, d))
 //@ pred isKindName(s) := s == "blob" || s == "tree" || s == "commit" || s == "tag"
 //@ pred kindOfName(s) := ite(s == "blob", BlobObject, ite(s == "tree", TreeObject, ite(s == "commit", CommitObject, ite(s == "tag", TagObject, UndefinedObject))))
+// What a reader finds in the bytes of a well-formed object: the header up to the first NUL splits at its blank into the
+// kind word and the decimal length, the rest is the payload. Proved once (object.lemmas#lemma[parse-of-objBytes]) from
+// the string theory; GetObject's round trip and the kind/payload clauses use it instead of redoing the argument.
+//@ pred hdrOf(x) := bsub(x, 0, indexOfByte(x, 0, 0))
+//@ lemma [parse-of-objBytes] {C01,C03,C05} forall t Type, d string {objBytes(t, d)} :: isKind(t) ==>
+//@     indexOfByte(objBytes(t, d), 0, 0) < len(objBytes(t, d))
+//@     && hdrOf(objBytes(t, d)) == kindName(t) + " " + fmtd(len(d), 0)
+//@     && contains(hdrOf(objBytes(t, d)), " ")
+//@     && splitHead(hdrOf(objBytes(t, d)), " ") == kindName(t)
+//@     && splitTail(hdrOf(objBytes(t, d)), " ") == fmtd(len(d), 0)
+//@     && kindOfName(kindName(t)) == t && isKindName(kindName(t))
+//@     && payloadOf(objBytes(t, d)) == d
+
 // kind of whatever is stored under an id: the word before the first blank of the decompressed content's header
 //@ pred plainOf(f, root, h) := zlibDec(content(f, objPath(root, h)))
 //@ pred storedKind(f, root, h) := kindOfName(splitHead(bsub(plainOf(f, root, h), 0, indexOfByte(plainOf(f, root, h), 0, 0)), " "))
@@ -76,6 +91,7 @@ package object
 
 //@ func NewObject
 //@   returns o, err
+//@   reveals objBytes-def
 //@   ensures [ok] err == nil && o != nil && fresh(o)
 //@   ensures [id] {C01,C04,C13} string(o.Hash) == objId(objType, string(data))
 //@   ensures [fields] {C01} o.Type == objType && o.Size == len(data) && string(o.Data) == string(data)
@@ -94,6 +110,7 @@ package object
 //@ func Object.Write
 //@   returns err
 //@   modifies fs
+//@   reveals objBytes-def
 //@   requires [id] len(o.Hash) == 20 && o.Size == len(o.Data)
 //@   ensures [stored] {C01,C02,C03,C04} err == nil ==> stored(fs, rootGoitPath, o.Hash, o.Type, string(o.Data))
 //@   ensures [frame] {C01,C03,C04} forall q string :: q != objPath(rootGoitPath, o.Hash) && q != objDir(rootGoitPath, o.Hash) ==> fs[q] == old(fs)[q]
